@@ -54,7 +54,7 @@ def run(ctx):
     carve = sorted(ctx.known)
     conds = []
     tmo = 200 if tier == "quick" else 1500
-    years = ["none", "single", "spaced"] if tier == "quick" else ["none", "single", "range", "spaced", "comma"]
+    years = ["none", "single", "spaced"] if tier == "quick" else ["none", "single", "range", "spaced"]
     carriers = ["Jane Doe"] if tier == "quick" else ["Jane Doe", "Acme Inc. <info@acme.example>", "Ünï Cödé e.V."]
     for prefix in PREFIXES:
         for hole in ("start", "mid", "end"):
